@@ -109,6 +109,11 @@ func (s *sortedSet[ElementType, WeightType]) addSorted(element ElementType) {
 			if listElement.unsubscribeFromWeightUpdates != nil {
 				s.mutex.Lock()
 				defer s.mutex.Unlock()
+
+				// ignore updates that race with the deletion of the element (we unsubscribe after releasing the lock)
+				if listElement.deleted {
+					return
+				}
 			}
 
 			listElement.weight = newWeight
@@ -120,12 +125,21 @@ func (s *sortedSet[ElementType, WeightType]) addSorted(element ElementType) {
 
 // deleteSorted deletes the given element from the sortedElements slice.
 func (s *sortedSet[ElementType, WeightType]) deleteSorted(element ElementType) {
+	if deletedElement := s.removeSorted(element); deletedElement != nil {
+		// unsubscribe from weight updates without holding the mutex: unsubscribing waits for a running weight update
+		// callback which in turn waits for the mutex (the callback ignores elements that are marked as deleted)
+		deletedElement.unsubscribeFromWeightUpdates()
+	}
+}
+
+// removeSorted removes the given element from the sortedElements slice and returns the removed element (if it existed).
+func (s *sortedSet[ElementType, WeightType]) removeSorted(element ElementType) (removedElement *sortedSetElement[ElementType, WeightType]) {
 	s.mutex.Lock()
 	defer s.mutex.Unlock()
 
 	if deletedElement, deleted := s.elements.DeleteAndReturn(element); deleted {
-		// unsubscribe from weight updates
-		deletedElement.unsubscribeFromWeightUpdates()
+		deletedElement.deleted = true
+		removedElement = deletedElement
 
 		// shift all elements to the right of the deleted element one position to the left
 		for i := deletedElement.index; i < len(s.sortedElements)-1; i++ {
@@ -153,6 +167,8 @@ func (s *sortedSet[ElementType, WeightType]) deleteSorted(element ElementType) {
 			}
 		}
 	}
+
+	return removedElement
 }
 
 // updatePosition updates the position of the given element in the sortedElements slice.
@@ -235,6 +251,9 @@ type sortedSetElement[ElementType comparable, WeightType cmp.Ordered] struct {
 
 	// unsubscribeFromWeightUpdates is the function that is used to unsubscribe from weight updates.
 	unsubscribeFromWeightUpdates func()
+
+	// deleted is set (under the mutex of the sortedSet) when the element was removed from the sortedElements slice.
+	deleted bool
 }
 
 // newSortedSetElement creates a new sortedSetElement instance.
